@@ -174,6 +174,11 @@ func (am AppModule) EndBlock(ctx sdk.Context, _ abci.RequestEndBlock) []abci.Val
 		for _, vu := range validatorUpdates {
 			pubKey, _ := cryptocodec.FromTmProtoPublicKey(vu.PubKey)
 			validatorList[sdk.ConsAddress(pubKey.Address()).String()] = big.NewInt(vu.Power)
+			if vu.Power == 0 {
+				// a validator that left the set must not keep nonce records: they would let it send
+				// fee-less create-price transactions that the ante handler still admits
+				am.keeper.RemoveNonceWithValidator(ctx, sdk.ConsAddress(pubKey.Address()).String())
+			}
 		}
 		// update validator set information in cache
 		cs.AddCache(cache.ItemV(validatorList))
